@@ -54,6 +54,8 @@ def parse(prefix, out):
 
 def job(prop, qu, shard, tier, exclude):
     timeout = qu["timeout"][tier] if isinstance(qu["timeout"], dict) else qu["timeout"]
+    if os.environ.get("VF_TMAX"):
+        timeout = min(timeout, float(os.environ["VF_TMAX"]))
     args = [prop, qu["name"], json.dumps(shard, sort_keys=True), "--timeout", str(timeout)]
     if exclude:
         args += ["--exclude", ",".join(sorted(exclude))]
@@ -85,6 +87,7 @@ def main():
     prop = argv[0]
     tier = os.environ.get("VERIF_TIER", "quick")
     only = None
+    noevidence = False
     jobs = int(os.environ.get("VF_JOBS", str(os.cpu_count() or 8)))
     i = 1
     while i < len(argv):
@@ -94,6 +97,10 @@ def main():
             only = set(argv[i + 1].split(",")); i += 2
         elif argv[i] == "--jobs":
             jobs = int(argv[i + 1]); i += 2
+        elif argv[i] == "--noevidence":  # development aid (seed matrix): leave /verif/evidence alone
+            noevidence = True; i += 1
+        elif argv[i] == "--tmax":       # development aid: cap every query's CPU budget
+            os.environ["VF_TMAX"] = argv[i + 1]; i += 2
         else:
             raise SystemExit("bad argument " + argv[i])
     seed = int(os.environ.get("VERIF_SEED", "0") or 0)
@@ -226,7 +233,7 @@ def main():
             "known_findings": kf_report,
             "inconclusive": [list(x) for x in inconclusive][:10],
         },
-        "assumptions": meta.get("assumptions", []),
+        "assumptions": meta.get("assumptions", []) + ["analysed source tree: " + os.path.join(REPO, "src")],
         "wall_s": round(time.time() - t0, 1),
         "violations": len(violations),
     }
@@ -238,7 +245,8 @@ def main():
             ev["coverage"]["extra_error"] = repr(exc)
     if ev["coverage"]["states"] < 1:
         ev["coverage"]["states"] = 0
-    json.dump(ev, open(os.path.join(VERIF, "evidence", prop + ".json"), "w"), indent=1)
+    if not noevidence:
+        json.dump(ev, open(os.path.join(VERIF, "evidence", prop + ".json"), "w"), indent=1)
 
     # ---- report
     for line in kf_lines:
